@@ -199,6 +199,9 @@ func main() {
 	for sh := 0; sh < 2; sh++ {
 		tasks = append(tasks, task{fmt.Sprintf("concurrent/%d", sh), func(h *H) { h.phaseConcurrent(sh, 2) }})
 	}
+	for sh := 0; sh < 3; sh++ {
+		tasks = append(tasks, task{fmt.Sprintf("casm/%d", sh), func(h *H) { h.phaseCasm(sh, 3) }})
+	}
 	tasks = append(tasks,
 		task{"utf8", func(h *H) { h.phaseUTF8() }}, task{"limits/0", func(h *H) { h.phaseLimits(0, 14) }})
 	for sh := 1; sh < 14; sh++ {
@@ -265,6 +268,10 @@ func main() {
 			"GetBlockHeaderTimestampByNumber", "GetBlockHeaderEventsBloomByNumber", "GetTransactionExecutionStatusByBlockAndIndex",
 			"GetTransactionEventsByBlockNumber", "GetTransactionHashesByBlockNumber"} {
 			need["proj-accessor:"+a] = 1
+		}
+		for _, k := range []string{"casm:method-sequences", "casm:chain-block/declares-v1", "casm:chain-block/declares-v2", "casm:chain-block/migrates",
+			"casm:chain-revert/migrating-block", "casm:chain-revert/declaring-block", "casm:chain-read/historical"} {
+			need[k] = 1
 		}
 		for _, gr := range golden {
 			need["golden:"+gr.name] = 1
